@@ -395,6 +395,7 @@ impl VmProc {
             env.log.borrow_mut().0.clear();
             env.term.borrow_mut().prompts.clear();
             env.fs.borrow().writes.set(0);
+            env.fs.borrow().line_reads.set(0);
             env.recovered_errors.set(0);
         }
         let cursor_before = vm.state.env.term.borrow().cursor;
